@@ -306,6 +306,35 @@ def dispatch (op : String) (args : List String) : Option String :=
   | "import", [stream] => do
       let s := importBytes (← decBytes stream)
       pure (match s.failed with | some w => "failed: " ++ w | none => "ok commits=" ++ toString s.nCommits ++ " refs=" ++ toString (s.refs.filter (·.2.isSome)).length)
+  -- the importer contract, dumped for the differential run against real git fast-import
+  | "import-dump", [stream] => do
+      let s := importBytes (← decBytes stream)
+      match s.failed with
+      | some w => pure ("failed: " ++ w)
+      | none =>
+        let blob (b : BlobId) : String := match b with
+          | .content c _ => "c" ++ encBytes c
+          | .sha h => "s" ++ encBytes h
+        let pref (p : PRef) : String := match p with
+          | .commit i => "i" ++ toString i
+          | .ext x => "x" ++ encBytes x
+        let commits := (List.range s.nCommits).map fun i =>
+          match s.commit? i with
+          | some c =>
+            "C:" ++ (match c.mark with | some m => toString m | none => "-") ++ ":" ++
+              (if c.parents.isEmpty then "-" else "+".intercalate (c.parents.map pref)) ++ ":" ++ encBytes c.msg ++ ":" ++
+              (if c.tree.isEmpty then "-" else ",".intercalate (c.tree.map fun e => encBytes e.path ++ "=" ++ encBytes e.mode ++ "=" ++ blob e.blob))
+          | none => "C:?"
+        let names := (s.refs.map (·.1)).eraseDups
+        let refs := names.filterMap fun n =>
+          match (s.refs.find? fun r => r.1 == n) with
+          | some (_, some (.commit p)) => some ("R:" ++ encBytes n ++ "=c" ++ pref p)
+          | some (_, some (.tag i)) =>
+            (match s.tag? i with
+             | some t => some ("R:" ++ encBytes n ++ "=t" ++ (match t.target with | some p => pref p | none => "?") ++ "=" ++ encBytes t.msg)
+             | none => some ("R:" ++ encBytes n ++ "=t?"))
+          | _ => none
+        pure ("ok|" ++ "|".intercalate (commits ++ refs))
   | _, _ => none
 
 end Frrs.Ops
